@@ -97,7 +97,8 @@ fn native_set_gsbase(v: u64) {
     unsafe { asm!("wrgsbase {}", in(reg) v, options(nostack, preserves_flags)) };
 }
 
-const SREG_UNSET: u16 = 0xfffe;
+/// "no emulated write happened": outside the 16-bit selector range, so it cannot collide with a selector
+const SREG_UNSET: u32 = 0x1_0000;
 
 fn load_prior(cls: u64, idx: u64, v: u64) {
     let c = softcpu::cpu();
